@@ -333,6 +333,15 @@ def run(ck):
         v = deref_local(fn, s["value"])
         names, root = call_chain(v)
         fresh = len(names) == 2 and name_is(names[0], "QUuid::toString") and name_is(names[1], "QUuid::createUuid")
+        name_based = False
+        if not fresh and len(names) >= 1 and name_is(names[0], "QUuid::toString"):
+            # QUuid held in a local (possibly inside a helper that was spliced in): where does it come from?
+            src_ = skip_copies(deref_local(fn, skip_copies(v).get("obj")))
+            if is_call(src_, "QUuid::createUuid"):
+                fresh = True
+            elif isinstance(src_, dict) and src_.get("k") == "call" and strip_tmpl(src_.get("callee") or "").startswith("QUuid::createUuidV"):
+                ck.ob("C18-O3", sitestr(fn, s["node"]), False, "event_id is a name-based UUID (%s) of data of the record: identical records share one id" % describe(src_)[:70], key="format|event-id")
+                name_based = True
         form = fresh and skip_copies(v).get("args") and const_int(skip_copies(v)["args"][0]) == 3
         static = False
         sv = skip_copies(s["value"])
@@ -366,7 +375,9 @@ def run(ck):
                     hn, _ = call_chain(hvv)
                     okh = len(hn) == 2 and name_is(hn[0], "QUuid::toString") and name_is(hn[1], "QUuid::createUuid") and skip_copies(hvv).get("args") and const_int(skip_copies(hvv)["args"][0]) == 3
                     helper_verdict = (True, "event_id = %s() = QUuid::createUuid().toString(QUuid::Id128)" % hf.name.split("::")[-1]) if okh else None
-        if helper_verdict is not None:
+        if name_based:
+            pass
+        elif helper_verdict is not None:
             ck.ob("C18-O3", sitestr(fn, s["node"]), helper_verdict[0], helper_verdict[1], key="format|event-id")
         else:
             ck.ob("C18-O3", sitestr(fn, s["node"]), ok if (fresh or static) else None, "event_id = QUuid::createUuid().toString(QUuid::Id128), created inside format()" if ok else
